@@ -159,6 +159,34 @@ def numerals(ctx, nfields):
     ctx.prove(tt == {34816: "/dev/pts/0", 34817: "/dev/pts/1", 1025: "/dev/tty1"}.get(tty), "terminal", detail=f"{tty} -> {tt}")
 
 
+@harness("C06.terminal_history", quick=[dict(n=2)], thorough=[dict(n=2), dict(n=3)])
+def terminal_history(ctx, n):
+    """terminal() follows the kernel's tty number at every call of a history: n processes ask in turn, and between two calls a
+    terminal device may appear (a pseudo-terminal opened later than psutil's first look at /dev) -- which process sits on which
+    terminal, and when each device appears, are symbolic"""
+    k = simk.Kernel(ctx)
+    simk.system_files(k)          # /dev/pts/0 (rdev 34816) exists from the start
+    DEV = {34816: "/dev/pts/0", 34817: "/dev/pts/1", 1025: "/dev/tty1"}
+    LATE = [34817, 1025]
+    appears = {d: ctx.choice(f"appears_{d}", list(range(n + 1))) for d in LATE}     # before which call (n = never)
+    ttys = [ctx.choice(f"tty{i}", [0, 34816, 34817, 1025]) for i in range(n)]
+    for i in range(n):
+        simk.full_process(k, 70 + i)
+        k.files[f"/proc/{70 + i}/stat"] = simk.stat_record(k, 70 + i, b"sh", b"S", {4: 1, 7: ttys[i], 22: 100 + i})
+    present = {34816}
+    with k.installed():
+        for i in range(n):
+            for d in LATE:
+                if appears[d] == i:
+                    k.files[DEV[d]] = ""
+                    k.stats[DEV[d]] = simk.StatResult(0o020620, rdev=d)
+                    present.add(d)
+            if ttys[i] != 0 and ttys[i] not in present:
+                continue              # a process cannot sit on a terminal that does not exist yet
+            got = ctx.guard("terminal-history", psutil.Process(70 + i).terminal)
+            ctx.prove(got == DEV.get(ttys[i]), "terminal-history", detail=f"call {i}: tty_nr {ttys[i]} -> {got!r}; devices that appeared after psutil's first look: {[DEV[d] for d in LATE if 0 < appears[d] <= i]}")
+
+
 @harness("C06.threads", quick=[dict(L=L, nthreads=2, witness=None) for L in (0, 1, 2, 4)] + [dict(L=0, nthreads=2, witness=i) for i in range(len(WITNESS_NAMES))]
          + [dict(L=1, nthreads=3, witness=None, gone=g) for g in ("open-ENOENT", "open-ESRCH", "read-ESRCH")],
          thorough=[dict(L=L, nthreads=3, witness=None) for L in range(16)] + [dict(L=0, nthreads=3, witness=i) for i in range(len(WITNESS_NAMES))]
